@@ -39,6 +39,10 @@ def gen(rng, tier):
         for fl in (0, STRICT):
             meta = {"kind": kind + ("-strict" if fl else "-default"), "stx": s, "text": t, "flags": fl}
             out.append((line(32, fl, ["Z" + hx(t)]), meta))
+        # the one-call entry points json_tokener_parse_verbose / json_tokener_parse (default parser)
+        if i % 8 == 0 and jsongen.nest(s) < 32:
+            meta = {"kind": kind + "-verbose", "stx": s, "text": t, "flags": 0, "entry": "V"}
+            out.append((line(32, 0, ["V" + hx(t), "W" + hx(t)]), meta))
     return out
 
 
@@ -60,6 +64,10 @@ def oracle(line_, meta, impl):
     if "stx" not in meta:
         return None
     kind, want = expect(meta)
+    if meta.get("entry") == "V" and kind == "accept":
+        # "success <len> <dump>" -> "success <dump> | parse <dump or - for null>"
+        dump = want.split(" ", 2)[2]
+        want = "success %s | parse %s" % (dump, "-" if dump == "n" else dump)
     if kind == "reject":
         if impl.startswith("success"):
             return ("bigint-strict-accepted", "integer beyond 64 bits accepted in strict mode: " + impl[:80])
